@@ -546,6 +546,12 @@ def bounded_values():
         d = t._asdict()
         if list(d) != list(t._fields) or any(d[f] is not getattr(t, f) for f in t._fields):
             bad.append(('_asdict', repr(t)))
+        # a copy made by _replace is a NEW value: it must not inherit the hash cached on the original
+        h0 = hash(t)
+        r2 = t._replace(k='zz')
+        fresh = type(t)('zz', t.v)
+        if r2 != fresh or hash(r2) != hash(fresh) or hash(t) != h0:
+            bad.append(('_replace after hash(): the copy carries a stale cached hash', repr(t), hash(r2), hash(fresh)))
         # the fields are what the CLASS declares: an attribute a user put on the instance is no field, a field is one whatever its value
         t2 = t._replace(v=t.v)
         t2.note, t2.k = 'mine', None
